@@ -51,13 +51,13 @@ Step ==
              /\ viol' = AddViol(viol, l + 1, FailedState(t, HistJump(t), Props) \cup C10Bad(t, t, ln, TRUE))
              /\ drift' = drift /\ cnt' = Bump(cnt, {"runs"})
         ELSE LET h2 == HistNext(h, gs, t, o)
-                 bad == FailedState(t, h2, Props) \cup FailedStep(gs, t, o, h2, Props)
+                 bad == FailedState(t, h2, Props) \cup FailedStep(gs, t, o, h, h2, Props)
                         \cup (IF "C14" \in Props /\ ln.op = "Start" THEN N("C14.shuffle", C14_shuffle(gs, o, ln.shuffled)) ELSE {})
                         \cup C10Bad(gs, t, ln, FALSE)
              IN /\ viol' = AddViol(viol, l + 1, bad)
                 /\ drift' = IF (StepOK(gs, ln, t) /\ ("C10" \notin Props \/ ~BoardChanged(gs, t) \/ C10_scoreModel(t)))
                                \/ Cardinality(drift) >= MaxViol THEN drift ELSE drift \cup {l + 1}
-                /\ cnt' = Bump(cnt, Exercised(gs, t, o, h2) \cup {"lines." \o ln.kind}
+                /\ cnt' = Bump(cnt, Exercised(gs, t, o, h, h2) \cup {"lines." \o ln.kind}
                                     \cup (IF BoardChanged(gs, t) /\ Len(t.board) >= 3 THEN {"C10.street" \o ToString(Len(t.board)) \o ".req" \o ToString(t.meta.reqHole) \o "." \o t.meta.ranking} ELSE {}))
                 /\ IF ln.kind = "probe" THEN gs' = gs /\ h' = h ELSE gs' = t /\ h' = h2
   /\ (l + 1 = Len(Trace)) =>
